@@ -3,7 +3,6 @@
 //! (over the structural node kinds), and the typed accessors agree with source positions.
 use serde_json::{json, Value};
 use std::io::{BufRead, Write};
-use std::sync::atomic::{AtomicUsize, Ordering};
 use std::sync::{Arc, Mutex};
 use syntax::ast::{self, AstNode};
 use syntax::{NodeOrToken, SyntaxKind, SyntaxNode};
@@ -282,23 +281,31 @@ fn main() {
     let arg = |name: &str| args.iter().position(|a| a == name).and_then(|i| args.get(i + 1)).cloned();
     let threads: usize = arg("--threads").and_then(|s| s.parse().ok()).unwrap_or(16);
     let seed: u64 = std::env::var("VERIF_SEED").ok().and_then(|s| s.parse().ok()).unwrap_or(1);
-    let cases: Vec<Value> = std::io::stdin().lock().lines().filter_map(|l| {
-        let l = l.unwrap();
-        if l.trim().is_empty() { None } else { Some(serde_json::from_str(&l).expect("case json")) }
-    }).collect();
-    let cases = Arc::new(cases);
-    let next = Arc::new(AtomicUsize::new(0));
-    let results = Arc::new(Mutex::new(Vec::<Value>::new()));
+    // cases are streamed: a shared line reader hands (index, line) to the workers (millions of cases in the thorough tier)
+    let source = Arc::new(Mutex::new((0usize, std::io::BufReader::with_capacity(1 << 20, std::io::stdin()).lines())));
+    let results = Arc::new(Mutex::new(std::collections::BTreeMap::<String, (usize, Vec<Value>)>::new()));
     let totals = Arc::new(Mutex::new((0u64, 0u64, 0u64, Vec::<Value>::new())));
     let mut hs = vec![];
     for _ in 0..threads {
-        let (cases, next, results, totals) = (cases.clone(), next.clone(), results.clone(), totals.clone());
+        let (source, results, totals) = (source.clone(), results.clone(), totals.clone());
         hs.push(std::thread::Builder::new().stack_size(64 << 20).spawn(move || loop {
-            let ci = next.fetch_add(1, Ordering::Relaxed);
-            if ci >= cases.len() {
-                break;
-            }
-            let case = &cases[ci];
+            let (ci, line) = {
+                let mut g = source.lock().unwrap();
+                let mut found = None;
+                while let Some(l) = g.1.next() {
+                    let l = l.unwrap();
+                    if !l.trim().is_empty() {
+                        found = Some(l);
+                        break;
+                    }
+                }
+                match found {
+                    Some(l) => { let i = g.0; g.0 += 1; (i, l) }
+                    None => break,
+                }
+            };
+            let case_v: Value = serde_json::from_str(&line).expect("case json");
+            let case = &case_v;
             if ambiguous(case) {
                 totals.lock().unwrap().1 += 1;
                 continue;
@@ -361,7 +368,14 @@ fn main() {
                 t.3.push(json!({"text": render(case, 2, &mut rng2), "tree": exp_s}));
             }
             drop(t);
-            results.lock().unwrap().extend(local);
+            if !local.is_empty() {
+                let mut res = results.lock().unwrap();
+                for r in local {
+                    let e = res.entry(r["features"].to_string()).or_default();
+                    e.0 += 1;
+                    if e.1.len() < 2 { e.1.push(r); }
+                }
+            }
         }).unwrap());
     }
     for h in hs {
@@ -371,10 +385,9 @@ fn main() {
     let mut so = so.lock();
     let res = results.lock().unwrap();
     let mut per: std::collections::BTreeMap<String, usize> = Default::default();
-    for r in res.iter() {
-        let c = per.entry(r["features"].to_string()).or_default();
-        *c += 1;
-        if *c <= 2 {
+    for (k, (n, rs)) in res.iter() {
+        per.insert(k.clone(), *n);
+        for r in rs {
             writeln!(so, "{r}").unwrap();
         }
     }
